@@ -14,6 +14,8 @@ class Gen:
         self.vars = []       # per var: dict(node=handle, pair=bool)
         self.obs = []        # per observer: dict(node=handle, handles=int, state='created'|'inuse'|'gone')
         self.subs = []       # per subscription: dict(obs=oid, ok=bool)
+        self.n_memos = 0     # functions memoised at top level
+        self.memo_limit = None   # while generating the body of memo m: only memos below m may be called
         self.stab = 0
 
     # ---- helpers
@@ -156,7 +158,16 @@ class Gen:
                     i = unused.pop(self.rng.randrange(len(unused)))
                     return f"l0.{i}"
                 return self.operand(nloc, enclosing)
-            if k == "const":
+            if k == "memocall":
+                lim = self.n_memos if self.memo_limit is None else self.memo_limit
+                if lim == 0:
+                    k = "constlhs"
+                else:
+                    key = "lhs" if self.rng.random() < 0.5 else str(self.rng.randrange(3))
+                    body.append(f"memocall {self.rng.randrange(lim)} {key}")
+            if k == "memocall":
+                pass
+            elif k == "const":
                 body.append(f"const {self.rng.randrange(5)}")
             elif k == "constlhs":
                 body.append("constlhs")
@@ -202,6 +213,20 @@ class Gen:
     def op_bind(self):
         lhs = self.pick_node()
         self.new_node(f"bind {lhs} " + self.bindfn(1, []), "bind")
+
+    def op_memonew(self):
+        if self.n_memos >= 3:
+            return self.op_memocall()
+        self.memo_limit = self.n_memos
+        t = self.template(self.p["max_bind_depth"] - 1, [])
+        self.memo_limit = None
+        self.emit("memonew { [] " + t + " }")
+        self.n_memos += 1
+
+    def op_memocall(self):
+        if self.n_memos == 0:
+            return self.op_memonew()
+        self.new_node(f"memocall {self.rng.randrange(self.n_memos)} {self.rng.randrange(3)}", "memo")
 
     def op_cutoff(self):
         self.emit(f"cutoff {self.pick_node()} {self.cutoff()}")
@@ -340,7 +365,8 @@ class Gen:
 
 DEFAULT_PROFILE = dict(
     weights=dict(var=2, const=1, map=8, mapref=2, mapold=2, fold=2, zip=1, dependon=1, bind=4, cutoff=2,
-                 observe=5, obs_misc=8, write=9, stabilise=8, misc=1, observeexport=0, mapexport=0, dropnode=0, dropvar=0),
+                 observe=5, obs_misc=8, write=9, stabilise=8, misc=1, observeexport=0, mapexport=0, dropnode=0, dropvar=0,
+                 memonew=0, memocall=0),
     arities=[1, 1, 1, 2, 2, 3, 4, 5, 6],
     fids=[0, 1, 2, 3, 4, 5, 6, 8, 9],
     wo_fids=[0, 1, 2],
@@ -355,7 +381,8 @@ DEFAULT_PROFILE = dict(
 
 
 W = dict(var=2, const=1, map=8, mapref=2, mapold=2, fold=2, zip=1, dependon=1, bind=4, cutoff=2,
-         observe=5, obs_misc=8, write=9, stabilise=8, misc=1, observeexport=0, mapexport=0, dropnode=0, dropvar=0)
+         observe=5, obs_misc=8, write=9, stabilise=8, misc=1, observeexport=0, mapexport=0, dropnode=0, dropvar=0,
+         memonew=0, memocall=0)
 
 
 def w(**kw):
@@ -366,6 +393,12 @@ def w(**kw):
 
 PROFILES = {
     "basic": {},
+    # C20: memoised functions called from top level and from bind closures, handles dropped, binds re-run
+    "memo": dict(weights=w(memonew=3, memocall=9, bind=9, write=14, stabilise=10, dropnode=5, observe=7, obs_misc=5,
+                           map=5, mapref=1, mapold=1, fold=1, zip=0, dependon=0, cutoff=1, observeexport=2),
+                 tinstr_kinds=["const", "constlhs", "map", "map", "mapref", "fold", "bind", "memocall", "memocall", "memocall"],
+                 obs_ops=["read", "read", "drop", "clone", "disallow"], export_prob=0.15, dangling_prob=0.15,
+                 cutoffs=["eq", "never", "fn:0", "boxed:0"], wo_fids=[0, 1, 2], max_bind_depth=3),
     # C01: pure functions, cutoffs that only suppress equal values, much re-observation
     "c01": dict(cutoffs=["eq", "never", "fn:0", "boxed:0"], wo_fids=[0, 1, 2],
                 weights=w(bind=6, write=12, stabilise=9, observe=6, obs_misc=9, mapref=3),
@@ -405,11 +438,61 @@ PROFILES = {
 
 
 def history(seed, n_ops=25, profile=None):
+    if profile == "memo-dynamic":
+        return dynamic_memo_history(seed)
     if isinstance(profile, str):
         profile = PROFILES[profile]
     rng = random.Random(seed)
     g = Gen(rng, profile)
     return g.run(n_ops)
+
+
+def dynamic_memo_history(seed):
+    """C20, scripted family: weak_memoize_fn is called inside a bind closure, so the function's scope is
+    that bind; calls from top level then create nodes in the bind's scope, and calling it after the bind
+    re-ran finds an invalid scope."""
+    rng = random.Random(seed)
+    L = []
+    v0, v1 = rng.randrange(4), rng.randrange(4)
+    L += [f"var {v0}", f"var {v1}"]                       # handles 0, 1
+    ntop = rng.choice([0, 1])
+    if ntop:
+        L.append("memonew { [] constlhs ; map 1 [] l0.0 o1 ; ret l0.1 }")
+    fid = rng.choice([1, 2, 8])
+    inner = f"memonew {{ [] constlhs ; map {fid} [] l0.0 o1 ; ret l0.1 }}"
+    use = rng.choice(["call", "nocall"])
+    if use == "call":
+        L.append(f"bind 0 {{ [] {inner} ; memocall {ntop} lhs ; ret l0.0 }}")      # handle 2
+    else:
+        L.append(f"bind 0 {{ [] {inner} ; constlhs ; ret l0.0 }}")
+    L += ["observe 2", "stabilise", "read 0"]
+    nh = 3
+    created = 1          # memos created by the bind so far
+    observed = True
+    for _ in range(rng.choice([2, 3, 4, 5])):
+        r = rng.random()
+        if r < 0.45:
+            m = ntop + rng.randrange(created)
+            L.append(f"memocall {m} {rng.randrange(3)}")
+            # the call cannot panic (and so yields a handle) only while the bind has run once and is observed
+            if created == 1 and observed:
+                if rng.random() < 0.6:
+                    L.append(f"observe {nh}")
+                nh += 1
+        elif r < 0.75:
+            v0 = (v0 + rng.choice([1, 2])) % 5
+            L += [f"set 0 {v0}", "stabilise"]
+            if observed:
+                created += 1
+        elif r < 0.9:
+            L += [f"set 1 {rng.randrange(5)}", "stabilise"]
+        elif observed:
+            L += ["dropobs 0", "stabilise"]
+            observed = False
+        if observed:
+            L.append("read 0")
+    L += ["stabilise", "stats"]
+    return L
 
 
 if __name__ == "__main__":
